@@ -18,7 +18,7 @@ THOROUGH_ROUNDS = 8      # the thorough tier runs the generator over this many d
 REQUIRED = {"quick": {"C08.sphdist": 2500, "C08.gcirc": 1200, "C08.relations": 1500},
             "thorough": {"C08.sphdist": 50000, "C08.gcirc": 25000, "C08.relations": 30000}}
 FAMS = ["uniform", "tiny", "antipodal", "band", "polar", "seam", "equal"]
-FORMS = ["float", "0d", "len1", "len3", "long", "list", "view"]
+FORMS = ["float", "0d", "len1", "len3", "long", "list", "view", "tuple"]
 LD = sp.LD
 TOL = {"sphdist": 1e-11, "gcirc": 2e-6}
 
@@ -49,7 +49,7 @@ def offset_point(ra, dec, s_deg, pa_deg):
 def make(case):
     rng = np.random.default_rng(case["sub"])
     fam, form = case["family"], case["form"]
-    n = {"float": 1, "0d": 1, "len1": 1, "len3": 3, "list": int(rng.integers(1, 6)),
+    n = {"float": 1, "0d": 1, "len1": 1, "len3": 3, "list": int(rng.integers(1, 6)), "tuple": int(rng.integers(2, 40)),
          "long": int(rng.choice([10, 100, 1000, 5000])), "view": int(rng.choice([2, 7, 100]))}[form]
     ra1 = rng.uniform(0, 360, size=n)
     dec1 = np.degrees(np.arcsin(rng.uniform(-1, 1, size=n)))
@@ -80,6 +80,12 @@ def make(case):
         dec2 = np.clip(dec1 + rng.normal(size=n) * 10.0 ** rng.uniform(-8, 0), -90, 90)
     else:
         ra2, dec2 = ra1.copy(), dec1.copy()
+    if fam != "equal" and n > 1 and rng.random() < .35:
+        # some - not all - of the pairs are the same point twice (a catalogue matched against itself plus neighbours)
+        same = rng.random(n) < .5
+        same[int(rng.integers(0, n))] = True
+        same[int(rng.integers(0, n))] = False
+        ra2, dec2 = np.where(same, ra1, ra2), np.where(same, dec1, dec2)
     return ra1, dec1, ra2, dec2
 
 
@@ -90,6 +96,8 @@ def shape_args(form, arrs):
         return [np.array(a[0]) for a in arrs]
     if form == "list":
         return [a.tolist() for a in arrs]
+    if form == "tuple":
+        return [tuple(a.tolist()) for a in arrs]
     if form == "view":
         # non-contiguous float64 views: every other element, negative stride, record field, 2-d column, inner slice
         vr = np.random.default_rng(int(arrs[0].size) + int(abs(arrs[0][0]) * 1000) % 9973)
@@ -129,6 +137,16 @@ def _judge(fn, call, in_unit, out_unit):
     gd = got.astype(LD) * (sp.R2D if out_unit == "rad" else 1)
     hi = LD(180) * (1 + 4e-16) if out_unit == "rad" else LD(180)
     err = np.abs(gd - true)
+    # identical inputs (the same numbers given for both points): exactly zero, not merely within the tolerance
+    f8 = [np.broadcast_to(np.atleast_1d(np.asarray(x, dtype="f8")), true.shape) for x in a]
+    same = (f8[0] == f8[2]) & (f8[1] == f8[3])
+    if (same & (got != 0)).any():
+        i = int(np.nonzero(same & (got != 0))[0][0])
+        wit["pair"] = [float(x[i]) for x in f8]
+        COL.violation(mon, "%s of identical inputs (pair %d of %d, %s form) is %r, not exactly zero" % (fn, i, true.size, form, float(got[i])), wit)
+        return
+    if same.any():
+        COL.ok("C08.relations", ("zero-in-wrapper", fn, form, bool(same.all())))
     bad = ~np.isfinite(got) | (gd < 0) | (gd > hi) | ~(err <= TOL[fn])
     if bad.any():
         i = int(np.nonzero(bad)[0][0])
@@ -167,6 +185,7 @@ def _o_gcirc(call):
 
 
 def install():
+    probe.enable_recall("C08.recall", every=5)
     probe.instrument("esutil.coords:sphdist", [_o_sphdist])
     probe.instrument("esutil.coords:gcirc", [_o_gcirc])
 
@@ -194,7 +213,7 @@ def run_case(case):
         ds, e = probe.attempt(f, args[2], args[3], args[0], args[1])
         if e is None:
             _rel("symmetric", np.all(np.abs(np.atleast_1d(ds) - d) <= 2 * tol), "%s not symmetric: %r vs %r" % (fn, d[:3], np.atleast_1d(ds)[:3]), wit)
-        if form != "list":
+        if form not in ("list", "tuple"):
             a360 = [args[0] + 360.0, args[1], args[2], args[3]] if rng.random() < .5 else [args[0], args[1], args[2] + 360.0, args[3]]
             d3, e = probe.attempt(f, *a360)
             if e is None:
@@ -218,8 +237,14 @@ def run_case(case):
         else:
             COL.violation("C08.relations", "sphdist(scalar point, array of points) raised %s: %s" % (type(e).__name__, str(e)[:120]), wit,
                           key="sphdist/broadcast-near-antipodal-raises" if isinstance(e, IndexError) else None)
+    # one of the points of a list against the whole list, as a scalar: for both functions, in every container form
+    if ra1.size > 1:
+        i = int(rng.integers(0, ra1.size))
+        for f in (co.sphdist, co.gcirc):
+            probe.attempt(f, float(ra2[i]), float(dec2[i]), args[2], args[3])
+            probe.attempt(f, args[2], args[3], float(ra2[i]), float(dec2[i]))
     # unit options of sphdist
-    if form != "list":
+    if form not in ("list", "tuple"):
         r = [np.radians(a) for a in args]
         for ui, uo in (("rad", "rad"), ("rad", "deg"), ("deg", "rad")):
             probe.attempt(co.sphdist, *(r if ui == "rad" else args), units=[ui, uo])
